@@ -175,6 +175,16 @@ MUTANTS = [
     ("unified-diff-ratio-again", "C13", "src/cli/output_diff.rs",
      "    if text_diff\n        .ops()\n        .iter()\n        .all(|op| matches!(op, DiffOp::Equal { .. }))\n    {",
      "    if text_diff.ratio() == 1.0 {", "float-comparison-in-diff-decision"),
+    ("guard-repeat-until-comments-dropped", "C01", "src/formatters/stmt.rs",
+     "        singleline_shape.over_budget() || condition.has_inline_comments();", "        singleline_shape.over_budget();",
+     "comment-guard-removed has_inline_comments"),
+    ("guard-while-do-token-dropped", "C01", "src/formatters/stmt.rs",
+     "            .do_token()\n            .has_leading_comments(CommentSearch::All)\n        || trivia_util::contains_comments(&condition);\n\n    let while_token",
+     "            .do_token()\n            .has_leading_comments(CommentSearch::All);\n\n    let while_token",
+     "comment-guard-removed contains_comments"),
+    ("guard-generic-for-names-wrong-node", "C03", "src/formatters/stmt.rs",
+     "    let require_names_multiline = trivia_util::contains_comments(generic_for.names())", "    let require_names_multiline = trivia_util::contains_comments(generic_for.for_token())",
+     "comment-guard-removed contains_comments(names"),
     ("regex-drop-z", "C04", "src/formatters/general.rs",
      'r#"^[^\\n\\r"\'0-9\\\\abfnrtuvxz]$"#', 'r#"^[^\\n\\r"\'0-9\\\\abfnrtuvx]$"#', "escape-dropped=z"),
     ("group-line-distance", "C12", "src/sort_requires.rs",
